@@ -41,7 +41,17 @@ RULE = ('read: fixed table of every shape the property names (length prefixes 10
         'length, unknown keys) x values of every decoded type and hostile text (non-ASCII letters, full-width / Arabic-Indic / '
         'superscript digits, NUL, newlines, bidi/BOM/zero-width, astral, empty, whitespace, 300..70000 characters, path-like, '
         'MD5 near misses, URL-like with hostile ports and hosts) x single-/multi-file x minimal/full layout + random MD5 near '
-        'misses + number ladder: 0, 1, 2, 16383..16385, 2^31-1..2^31+1, 2^32, 2^53-1..2^53+1, 2^63-1..2^63+1, 2^64, 10^308, 2^1023, '
+        'misses + keys harvested from the source under test at run time (AST of torf/*.py: every string constant used as a '
+        'subscript, as argument of .get/.pop/.setdefault, in an in-test or ==-test, as key of a dict display, inside a tuple/list '
+        'argument such as the key paths of assert_type [primary]; every other short constant of the code that is not a doc string '
+        'or message [secondary]) x level (top level, info, a file entry) x values of every bencodable type (ints incl. negative '
+        'and 10^30 / 2^63 / -2^1024, byte strings valid / not UTF-8 / numeric-looking / empty / long, lists, dicts, nested) x '
+        'context (the four valid layouts and each with one required key removed: pieces, name, piece length, length / files, '
+        "a file's length / path, info; and 'crowded' layouts in which every other harvested key the model does not know is "
+        "present at every level with a number / a text / a nested mapping): read with validate=False always and validate=True "
+        "for a share; a key outside the "
+        'vocabulary of the model (op c08.keys) is also evaluated by the model on the input without it '
+        '(C08_unknown_key_irrelevant) + number ladder: 0, 1, 2, 16383..16385, 2^31-1..2^31+1, 2^32, 2^53-1..2^53+1, 2^63-1..2^63+1, 2^64, 10^308, 2^1023, '
         '2^1024-1, 2^1024, 2^1024+1, 2^1025, 10^309, 10^400, 2^2048, 10^4298, 10^4299, 10^4300-1, 10^4300 and their negatives as '
         'length, files[0|1].length, piece length (the number, 16384 x it, the multiples of 16384 around it), creation date and '
         'private of single- and multi-file torrents, each as it is and fitted (piece length chosen so that the torrent validates '
@@ -554,7 +564,9 @@ def _maxprefix(x):
 
 
 def _case_json(c):
-    j = {k: v for k, v in c.items() if k not in ('x',)}
+    j = {k: v for k, v in c.items() if k not in ('x', 'x_without')}
+    if c.get('x_without') is not None:
+        j['x_without'] = c['x_without'].hex()          # the same torrent with the harvested key absent
     if 'x' in c:
         x = c['x']
         j['len'] = len(x)
@@ -566,6 +578,21 @@ def _case_json(c):
             j['x_sha1'] = common.sha1(x).hex()
             j['x_recipe'] = c.get('recipe')
     return j
+
+
+_VOCABULARY = {}
+
+
+def _outside_vocabulary(drv, hkey):
+    """is the harvested key outside the key set of the model at its level (op c08.keys = Model/KeyVocabulary.lean)"""
+    if not hkey:
+        return False
+    if not _VOCABULARY:
+        _VOCABULARY.update(drv.run([{'op': 'c08.keys'}])[0])
+    try:
+        return bytes.fromhex(hkey['key']).decode('utf8') not in _VOCABULARY[hkey['level']]
+    except UnicodeDecodeError:
+        return True
 
 
 def _drv_run(drv, reqs):
@@ -593,6 +620,9 @@ def evaluate_read(ctx, drv, cases):
         reqs.append({'op': 'c08.read', 'x': c['x'].hex(), 'validate': c['validate'], 'how': how,
                      'mem': o['mem'] if o['mem'] is not None else 2 ** 62, 'decFuel': o['decFuel'],
                      'encFuel': o['encFuel'], 'encFuelNV': o['encFuel'], 'cd': o['cd'], 'urls': o['urls']})
+        if c.get('x_without') is not None and _outside_vocabulary(drv, c.get('hkey')):
+            # a harvested key the model does not know: the model is also evaluated on the input without it
+            reqs[-1]['xw'] = c['x_without'].hex()
         idx.append(i)
     replies = dict(zip(idx, _drv_run(drv, reqs)))
     for i, (c, o) in enumerate(zip(cases, obs_all)):
@@ -608,6 +638,16 @@ def evaluate_read(ctx, drv, cases):
             # regression family of the repaired finding D08i (/repo 3420ff7): compared like every other case
             ctx.dist['deep-pieces(ex-D08i)' + ('/validate' if c['validate'] else '')] += 1
         I = {k: o[k] for k in ('read', 'validate', 'dump', 'dumpnv', 'infohash', 'magnet') if k in o}
+        if m and 'keyAgree' in m:
+            # the key of this case is outside the model's vocabulary: by C08_unknown_key_irrelevant the model's verdict
+            # is the one for the input without the key; a reaction of the code to the key shows below as a difference
+            # between code and model on this input
+            ctx.dist['harvested key outside the model vocabulary (judged against the model without it)'] += 1
+            case['unknown_key'] = dict(c['hkey'], key=bytes.fromhex(c['hkey']['key']).decode('utf8', 'replace'),
+                                       model_without=m['without'])
+            if not m['keyAgree'] or (c['hkey']['level'] == 'top' and not m['infohashAgree']):
+                ctx.machinery_error('the model tells apart two inputs that differ only under a key outside its vocabulary '
+                                    '(contradicts C08_unknown_key_irrelevant)', case)
         inside = c['how'] not in ('bytes', 'bytearray') or len(x) <= 10 ** 7
         model = m['model'] if m else None
         hyps = m['hyps'] if m else {}
@@ -1321,6 +1361,31 @@ def _load_corpus(ctx):
     return out
 
 
+def harvested_cases(ctx):
+    """keys harvested from the source under test (harness/gen/keyharvest.py) x levels x values of every bencodable
+    type x contexts (other keys present / absent): read with validate=False always (validate(), dump(), infohash and
+    magnet() then run on the returned object), validate=True for a share, file / stream for a few"""
+    from harness.gen import keyharvest
+    r = ctx.rng
+    h = keyharvest.harvest()
+    ctx.notes['harvested_keys'] = {
+        'source': 'AST of $VERIF_REPO/torf/*.py (%d files)' % h['files'],
+        'primary': [k.decode('utf8', 'replace') for k in h['primary']],
+        'secondary': len(h['secondary']), 'errors': h['errors']}
+    out = []
+    voc = common.Driver().run([{'op': 'c08.keys'}])[0]          # the vocabulary of the model (Model/KeyVocabulary.lean)
+    vocab = {lv: {k.encode('utf8') for k in voc[lv]} for lv in ('top', 'info', 'file')}
+    for c in ugen.harvested_key_cases(h['primary'], h['secondary'], full=ctx.thorough, known=ugen.static_key_slots(),
+                                      vocab=vocab):
+        out.append(dict(c, validate=False, how='bytes'))
+        k = r.random()
+        if ctx.thorough or k < 0.4:
+            out.append(dict(c, validate=True, how='bytes'))
+        if k > (0.85 if ctx.thorough else 0.95):
+            out.append(dict(c, validate=r.random() < 0.5, how=r.choice(['file', 'stream'])))
+    return out
+
+
 def build_read_cases(ctx):
     r = ctx.rng
     cases = []
@@ -1372,6 +1437,7 @@ def build_read_cases(ctx):
         if k > (0.5 if ctx.thorough else 0.85):
             cases.append(dict(c, validate=r.random() < 0.7, how=r.choice(['file', 'stream'])))
     cases += _expand(r, ugen.md5_near_misses(r, ctx.n(600, 20000)), p_validate=0.8)
+    cases += harvested_cases(ctx)
     # number ladder in every numeric field, in torrents that are valid around the number
     for c in ugen.number_ladder():
         cases.append(dict(c, validate=True, how='bytes'))
@@ -1437,6 +1503,11 @@ def run(ctx, drv):
         'datetime.fromtimestamp, urlparse, int(), unquote() of strings with a "%" and URL well-formedness are oracles computed '
         'by the harness with the standard library and passed to the model per case; parse_qs is modelled in Lean '
         '(Model/QueryString.lean) and compared with urllib.parse.parse_qs on every magnet case',
+        'the keys the code reads are harvested from its source on every run (harness/gen/keyharvest.py); the Lean model looks at a '
+        'metainfo only through the keys of Model/KeyVocabulary.lean (C08_unknown_key_irrelevant: validate() of two metainfos that '
+        'answer those lookups alike is the same, whatever other keys they hold at the top level, in info and in file entries), so '
+        'a harvested key outside that vocabulary is judged against the model evaluated without it; the driver evaluates both and a '
+        'difference is a machinery error; getters that read/validate/dump/infohash/magnet() do not call are not observed',
         'validate()/dump()/infohash of returned torrents: C08_returned_* use C07_validate_only_metainfo_error (imported, proved) '
         'under filesNotMapping (finding D07f); magnet() of a returned torrent is judged against {ok, MetainfoError} except for '
         'URLError/TypeError from its getter tail after infohash succeeded (C07 finding D07i: counted, not judged)',
@@ -1475,6 +1546,11 @@ def run(ctx, drv):
     t0 = time.time()
     rc = build_read_cases(ctx)
     phase['build_read_cases'] = round(time.time() - t0, 1)
+    voc = drv.run([{'op': 'c08.keys'}])[0]
+    known = set(voc['top']) | set(voc['info']) | set(voc['file'])
+    hk = ctx.notes.get('harvested_keys', {})
+    hk['model_vocabulary'] = {k: voc[k] for k in ('top', 'info', 'file')}
+    hk['primary_outside_model_vocabulary'] = [k for k in hk.get('primary', []) if k not in known]
     # self-test hook for search(): VERIF_C08_SKIP_KINDS=prefix,prefix… drops those kinds from the main run, so that a seeded
     # change is only seen as a correspondence break and the sweep has to find the failing input
     skip = tuple(k for k in os.environ.get('VERIF_C08_SKIP_KINDS', '').split(',') if k)
